@@ -5,11 +5,11 @@
 From Coq Require Import List Arith ZArith.
 From VBase Require Import FieldOps.
 From VBase Require Import MachInt.
-From VModel Require Import Composition CompositionLagrange CompositionMixed CompositionMixedWhole ExtField.
+From VModel Require Import Composition CompositionLagrange CompositionMixed CompositionMixedWhole CompositionMixedFull ExtField.
 From VModel Require Enforce EnforceLagrange.
 From VModel Require FFT Stark.
 From VProofs Require FFTSpec FFTEval FFTOffset FFTSegments StarkPoly StarkLagrangeRows.
-From VProofs Require Import ZpLaws CompositionBase CompositionIndex CompositionVerifier CompositionTable CompositionFFT CompositionValid CompositionLagrange CompositionLagrangeTable CompositionLagrangePoly CompositionMixed CompositionMixedWhole CompositionMixedInst CompositionLagrangeHonest CompositionLagrangeFinal ExtModel ExtConcrete CompositionExamples.
+From VProofs Require Import ZpLaws CompositionBase CompositionIndex CompositionVerifier CompositionTable CompositionFFT CompositionValid CompositionLagrange CompositionLagrangeTable CompositionLagrangePoly CompositionMixed CompositionMixedWhole CompositionMixedFull CompositionMixedFinal CompositionMixedInst CompositionLagrangeHonest CompositionLagrangeFinal ExtModel ExtConcrete CompositionExamples.
 Import ListNotations.
 Local Open Scope nat_scope.
 
@@ -1081,6 +1081,280 @@ Theorem C17_verifier_evaluate_constraints_ext :
               (map (embG emb) main_groups) (map (embGa emb) aux_groups) rands true tE apolys z).
 Proof. exact @verifier_evaluate_constraints_ext. Qed.
 Print Assumptions C17_verifier_evaluate_constraints_ext.
+
+(* ---- round 10 (2): E != B for the MULTI-segment prover path.  coq/Model/CompositionMixedFull.v `evaluate_mixed_full`:
+        evaluate_fragment_full + BoundaryConstraints::{new, evaluate_all} + combine with the main frame, periodic values, domain
+        points, divisors and main transition evaluations in B; the auxiliary frame, auxiliary transition evaluations, auxiliary
+        assertion polynomials, coefficients and the table in E; x and x_offset of auxiliary constraints in B through mul_base
+        (horner_mb, eval_poly_with_offset_mb); auxiliary groups merged into main groups with `div_eqb` over B.
+        THEOREM: it equals the single-field evaluate over OE on the embedded inputs (main groups via embG, auxiliary groups via
+        embGa), for every Emb and every AIR whose evaluators commute with the embedding. *)
+Theorem C17_evaluate_mixed_full_embeds :
+  forall (B E : Type) (OB : FOps B) (OE : FOps E),
+         FLaws OB ->
+         FLaws OE ->
+         forall (emb : B -> E) (mul_base : E -> B -> E),
+         Emb OB OE emb mul_base ->
+         forall (n ceb ldeb : nat) (offset : B) (rou : nat -> B) (num_main : nat)
+           (tmainB : list B -> list B -> list B -> list B) (tmainE : list E -> list E -> list E -> list E)
+           (tauxM : list B -> list B -> list E -> list E -> list B -> list E -> list E)
+           (tauxE : list E -> list E -> list E -> list E -> list E -> list E -> list E),
+         (forall cur nxt pv : list B, tmainE (map emb cur) (map emb nxt) (map emb pv) = map emb (tmainB cur nxt pv)) ->
+         (forall (cur nxt : list B) (ac an : list E) (pv : list B) (rs : list E),
+          tauxE (map emb cur) (map emb nxt) ac an (map emb pv) rs = tauxM cur nxt ac an pv rs) ->
+         forall (ppolys : list (list B)) (exemptions : nat) (tcoef : list E) (main_groups : list BGm)
+           (aux_groups : list BGa) (rands : list E) (lde_main : list (list B)) (lde_aux : list (list E)),
+         evaluate_mixed_full OB OE mul_base n ceb ldeb offset rou num_main tmainB tauxM ppolys exemptions tcoef
+           main_groups aux_groups rands lde_main lde_aux =
+         evaluate OE n ceb ldeb (emb offset) (fun m : nat => emb (rou m)) num_main tmainE tauxE 
+           (map (map emb) ppolys) exemptions tcoef (map (embG emb) main_groups) (map (embGa emb) aux_groups) rands true
+           (map (map emb) lde_main) lde_aux (fun (_ : nat) (v : E) => v).
+Proof. exact @evaluate_mixed_full_embeds. Qed.
+Print Assumptions C17_evaluate_mixed_full_embeds.
+
+(* table_row_spec for E != B, multi-segment: main-segment hypotheses on the base-field data, auxiliary segment in E *)
+Theorem C17_table_row_spec_multi_segment_ext :
+  forall (B E : Type) (OB : FOps B) (OE : FOps E),
+         FLaws OB ->
+         FLaws OE ->
+         forall (emb : B -> E) (mul_base : E -> B -> E),
+         Emb OB OE emb mul_base ->
+         forall (n ceb ldeb : nat) (offset : B) (rou : nat -> B) (num_main : nat)
+           (tmainB : list B -> list B -> list B -> list B) (tmainE : list E -> list E -> list E -> list E)
+           (tauxM : list B -> list B -> list E -> list E -> list B -> list E -> list E)
+           (tauxE : list E -> list E -> list E -> list E -> list E -> list E -> list E),
+         (forall cur nxt pv : list B, tmainE (map emb cur) (map emb nxt) (map emb pv) = map emb (tmainB cur nxt pv)) ->
+         (forall (cur nxt : list B) (ac an : list E) (pv : list B) (rs : list E),
+          tauxE (map emb cur) (map emb nxt) ac an (map emb pv) rs = tauxM cur nxt ac an pv rs) ->
+         forall (ppolys : list (list B)) (exemptions : nat) (tcoef : list E) (main_groups : list BGm)
+           (aux_groups : list BGa) (rands : list E) (lde_main : list (list B)) (lde_aux : list (list E)) 
+           (r' : nat) (wlde ginv : B),
+         n <> 0 ->
+         ceb <> 0 ->
+         r' <> 0 ->
+         ldeb = ceb * r' ->
+         cpow OB wlde (lde_size n ldeb) = fone OB ->
+         cpow OB wlde r' = wce n ceb rou ->
+         cpow OB wlde ldeb = gtrace n rou ->
+         fmul OB ginv (gtrace n rou) = fone OB ->
+         (forall cur nxt pv : list E, length (tmainE cur nxt pv) = num_main) ->
+         exemptions <= n ->
+         (forall p : list B, In p ppolys -> length p <> 0) ->
+         (forall p : list B, In p ppolys -> length p * (n / length p) = n) ->
+         (forall p : list B,
+          In p ppolys -> exists q : nat, fold_left Nat.max (map (length (A:=B)) ppolys) 0 = length p * q) ->
+         (forall p : list B, In p ppolys -> rou (length p * ceb) = cpow OB (wce n ceb rou) (n / length p)) ->
+         forall (tpolys : list (list B)) (apolys : list (list E)),
+         (forall g : BGm,
+          In g main_groups ->
+          div_okB n ceb (gm_div g) /\
+          (forall c : BCm,
+           In c (gm_cs g) ->
+           m_col c < length tpolys /\
+           length (m_poly c) <> 0 /\
+           m_xoff c = cpow OB ginv (m_first c) /\
+           m_first c < n /\ length (m_poly c) * (ce_size n ceb / length (m_poly c)) = ce_size n ceb)) ->
+         (forall g : BGa,
+          In g aux_groups ->
+          div_okB n ceb (ga_div g) /\
+          (forall c : BCa,
+           In c (ga_cs g) ->
+           a_col c < length apolys /\
+           length (a_poly c) <> 0 /\
+           a_xoff c = cpow OB ginv (a_first c) /\
+           a_first c < n /\ length (a_poly c) * (ce_size n ceb / length (a_poly c)) = ce_size n ceb)) ->
+         lde_rows_of OB n ldeb offset wlde lde_main tpolys ->
+         lde_rows_of OE n ldeb (emb offset) (emb wlde) lde_aux apolys ->
+         evaluate_mixed_full OB OE mul_base n ceb ldeb offset rou num_main tmainB tauxM ppolys exemptions tcoef
+           main_groups aux_groups rands lde_main lde_aux =
+         Some
+           (map
+              (fun i : nat =>
+               comp_def OE n (fun m : nat => emb (rou m)) tmainE tauxE (map (map emb) ppolys) exemptions tcoef
+                 (map (embG emb) main_groups) (map (embGa emb) aux_groups) rands true (map (map emb) tpolys) apolys
+                 (emb (ce_x OB n ceb offset rou i))) (seq 0 (ce_size n ceb))).
+Proof. exact @table_row_spec_multi_segment_ext. Qed.
+Print Assumptions C17_table_row_spec_multi_segment_ext.
+
+(* the capstone for E != B, multi-segment (premises: interpolation round trip over E, coefficient list for comp_def over E) *)
+Theorem C17_composition_is_definition_aux_ext :
+  forall (B E : Type) (OB : FOps B) (OE : FOps E),
+         FLaws OB ->
+         FLaws OE ->
+         forall (emb : B -> E) (mul_base : E -> B -> E),
+         Emb OB OE emb mul_base ->
+         forall (n ceb ldeb : nat) (offset : B) (rou : nat -> B) (num_main : nat)
+           (tmainB : list B -> list B -> list B -> list B) (tmainE : list E -> list E -> list E -> list E)
+           (tauxM : list B -> list B -> list E -> list E -> list B -> list E -> list E)
+           (tauxE : list E -> list E -> list E -> list E -> list E -> list E -> list E),
+         (forall cur nxt pv : list B, tmainE (map emb cur) (map emb nxt) (map emb pv) = map emb (tmainB cur nxt pv)) ->
+         (forall (cur nxt : list B) (ac an : list E) (pv : list B) (rs : list E),
+          tauxE (map emb cur) (map emb nxt) ac an (map emb pv) rs = tauxM cur nxt ac an pv rs) ->
+         forall (ppolys : list (list B)) (exemptions : nat) (tcoef : list E) (main_groups : list BGm)
+           (aux_groups : list BGa) (rands : list E) (lde_main : list (list B)) (lde_aux : list (list E)) 
+           (r' : nat) (wlde ginv : B),
+         n <> 0 ->
+         ceb <> 0 ->
+         r' <> 0 ->
+         ldeb = ceb * r' ->
+         cpow OB wlde (lde_size n ldeb) = fone OB ->
+         cpow OB wlde r' = wce n ceb rou ->
+         cpow OB wlde ldeb = gtrace n rou ->
+         fmul OB ginv (gtrace n rou) = fone OB ->
+         (forall cur nxt pv : list E, length (tmainE cur nxt pv) = num_main) ->
+         exemptions <= n ->
+         (forall p : list B, In p ppolys -> length p <> 0) ->
+         (forall p : list B, In p ppolys -> length p * (n / length p) = n) ->
+         (forall p : list B,
+          In p ppolys -> exists q : nat, fold_left Nat.max (map (length (A:=B)) ppolys) 0 = length p * q) ->
+         (forall p : list B, In p ppolys -> rou (length p * ceb) = cpow OB (wce n ceb rou) (n / length p)) ->
+         forall (tpolys : list (list B)) (apolys : list (list E)),
+         (forall g : BGm,
+          In g main_groups ->
+          div_okB n ceb (gm_div g) /\
+          (forall c : BCm,
+           In c (gm_cs g) ->
+           m_col c < length tpolys /\
+           length (m_poly c) <> 0 /\
+           m_xoff c = cpow OB ginv (m_first c) /\
+           m_first c < n /\ length (m_poly c) * (ce_size n ceb / length (m_poly c)) = ce_size n ceb)) ->
+         (forall g : BGa,
+          In g aux_groups ->
+          div_okB n ceb (ga_div g) /\
+          (forall c : BCa,
+           In c (ga_cs g) ->
+           a_col c < length apolys /\
+           length (a_poly c) <> 0 /\
+           a_xoff c = cpow OB ginv (a_first c) /\
+           a_first c < n /\ length (a_poly c) * (ce_size n ceb / length (a_poly c)) = ce_size n ceb)) ->
+         lde_rows_of OB n ldeb offset wlde lde_main tpolys ->
+         lde_rows_of OE n ldeb (emb offset) (emb wlde) lde_aux apolys ->
+         forall interp : list E -> list E,
+         (forall p : list E,
+          length p = ce_size n ceb ->
+          interp
+            (map (fun i : nat => peval OE p (ce_x OE n ceb (emb offset) (fun m : nat => emb (rou m)) i))
+               (seq 0 (ce_size n ceb))) = p) ->
+         forall (good : E -> Prop) (q : list E) (num_cols : nat),
+         (forall z : E,
+          good z ->
+          peval OE q z =
+          comp_def OE n (fun m : nat => emb (rou m)) tmainE tauxE (map (map emb) ppolys) exemptions tcoef
+            (map (embG emb) main_groups) (map (embGa emb) aux_groups) rands true (map (map emb) tpolys) apolys z) ->
+         (forall i : nat, i < ce_size n ceb -> good (ce_x OE n ceb (emb offset) (fun m : nat => emb (rou m)) i)) ->
+         length q <= ce_size n ceb ->
+         length q <= num_cols * n ->
+         n < ce_size n ceb ->
+         exists (evals : list E) (cols : list (list E)),
+           evaluate_mixed_full OB OE mul_base n ceb ldeb offset rou num_main tmainB tauxM ppolys exemptions tcoef
+             main_groups aux_groups rands lde_main lde_aux = Some evals /\
+           composition_poly_new n interp evals num_cols = Some cols /\
+           (forall z : E, recombine OE n (cp_evaluate_at OE cols z) z = peval OE q z) /\
+           (forall z : E,
+            good z ->
+            recombine OE n (cp_evaluate_at OE cols z) z =
+            comp_def OE n (fun m : nat => emb (rou m)) tmainE tauxE (map (map emb) ppolys) exemptions tcoef
+              (map (embG emb) main_groups) (map (embGa emb) aux_groups) rands true (map (map emb) tpolys) apolys z).
+Proof. exact @composition_is_definition_aux_ext. Qed.
+Print Assumptions C17_composition_is_definition_aux_ext.
+
+(* ---- round 10 (4): the single-segment `_ext` capstone with BOTH extension-field premises instantiated (interpolation = C09's
+        FFT model over E; polynomial form of comp_def over E from validity via C01 at F := E).  It is C17_composition_is_definition
+        at F := E on the embedded data composed with C17_evaluate_mixed_embeds.  The hypotheses are statements over E about the
+        EMBEDDED base-field data: the composition coefficients live in E, so the numerator polynomials and their vanishing are
+        extension-field statements by nature; root-of-unity relations, periodic-column and boundary well-formedness are stated
+        on `emb (rouB m)`, `map (map emb) ppolysB`, `map (embG emb) groupsB` (they follow from the base-field ones as in
+        C17_table_row_spec_single_segment_ext; not re-derived in this statement). *)
+Theorem C17_composition_is_definition_ext_closed :
+  forall (B F : Type) (OB : FOps B) (O0 : FOps F),
+         FLaws OB ->
+         FLaws O0 ->
+         forall (emb : B -> F) (mul_base : F -> B -> F),
+         Emb OB O0 emb mul_base ->
+         forall (offsetB : B) (rouB : nat -> B) (tmainB : list B -> list B -> list B -> list B)
+           (tmain : list F -> list F -> list F -> list F),
+         (forall cur nxt pv : list B, tmain (map emb cur) (map emb nxt) (map emb pv) = map emb (tmainB cur nxt pv)) ->
+         forall (ppolysB : list (list B)) (groupsB : list BGm) (lde_mainB tpolysB : list (list B)) 
+           (n ceb ldeb r : nat) (wlde ginv : F),
+         n <> 0 ->
+         ceb <> 0 ->
+         r <> 0 ->
+         ldeb = ceb * r ->
+         cpow O0 wlde (lde_size n ldeb) = fone O0 ->
+         cpow O0 wlde r = wce n ceb (fun m : nat => emb (rouB m)) ->
+         cpow O0 wlde ldeb = gtrace n (fun m : nat => emb (rouB m)) ->
+         fmul O0 ginv (gtrace n (fun m : nat => emb (rouB m))) = fone O0 ->
+         StarkPoly.primitive_root O0 (gtrace n (fun m : nat => emb (rouB m))) n ->
+         forall (num_main : nat) (taux : list F -> list F -> list F -> list F -> list F -> list F -> list F)
+           (exemptions : nat) (tcoef rands : list F) (apolys : list (list F)),
+         list (list F) ->
+         (forall cur nxt pv : list F, length (tmain cur nxt pv) = num_main) ->
+         exemptions <= n ->
+         (forall p : list F, In p (map (map emb) ppolysB) -> length p <> 0) ->
+         (forall p : list F, In p (map (map emb) ppolysB) -> length p * (n / length p) = n) ->
+         (forall p : list F,
+          In p (map (map emb) ppolysB) ->
+          exists q : nat, fold_left Nat.max (map (length (A:=F)) (map (map emb) ppolysB)) 0 = length p * q) ->
+         (forall p : list F,
+          In p (map (map emb) ppolysB) ->
+          emb (rouB (length p * ceb)) = cpow O0 (wce n ceb (fun m : nat => emb (rouB m))) (n / length p)) ->
+         (forall gr : BGroup,
+          In gr (map (embG emb) groupsB) ->
+          div_ok n ceb (bg_div gr) /\ (forall c : BC, In c (bg_cs gr) -> bc_ok O0 n ceb ginv (map (map emb) tpolysB) c)) ->
+         lde_rows_of O0 n ldeb (emb offsetB) wlde (map (map emb) lde_mainB) (map (map emb) tpolysB) ->
+         forall (two_adicity K : nat) (rouk : nat -> F) (itw : list F),
+         ce_size n ceb = 2 ^ S K ->
+         S K <= two_adicity ->
+         rouk (S K) = wce n ceb (fun m : nat => emb (rouB m)) ->
+         FFTSpec.root_cond O0 (S K) (wce n ceb (fun m : nat => emb (rouB m))) ->
+         FFT.get_inv_twiddles O0 two_adicity rouk (2 ^ S K) = Some itw ->
+         emb offsetB <> fzero O0 ->
+         fmul O0 (FFTSpec.two_pow_f O0 (S K)) (FFTOffset.n_inv O0 (S K)) = fone O0 ->
+         (forall i : nat,
+          i < ce_size n ceb ->
+          ~
+          In (ce_x O0 n ceb (emb offsetB) (fun m : nat => emb (rouB m)) i)
+            (Stark.domain O0 (gtrace n (fun m : nat => emb (rouB m))) n)) ->
+         forall num_cols m : nat,
+         m <= ce_size n ceb ->
+         m <= num_cols * n ->
+         n < ce_size n ceb ->
+         forall (N : list F) (Bm Rm Ba Ra : BGroup -> list F),
+         (forall gr : BGroup,
+          In gr (map (embG emb) groupsB) ->
+          forall z : F, peval O0 (Bm gr) z = group_numer O0 (map (map emb) tpolysB) gr z) ->
+         (forall gr : BGroup,
+          In gr (map (embG emb) groupsB) ->
+          forall z : F, Stark.pprod O0 (Rm gr) z = fsub O0 (cpow O0 z (dv_a (bg_div gr))) (dv_b (bg_div gr))) ->
+         (forall i : nat,
+          i < n - exemptions -> peval O0 N (cpow O0 (gtrace n (fun m0 : nat => emb (rouB m0))) i) = fzero O0) ->
+         length N - (n - exemptions) <= m ->
+         (forall z : F,
+          peval O0 N z =
+          rsum O0
+            (map (fun ca : F * F => fmul O0 (snd ca) (fst ca))
+               (combine
+                  (def_constraints O0 n (fun m0 : nat => emb (rouB m0)) tmain taux (map (map emb) ppolysB) rands false
+                     (map (map emb) tpolysB) apolys z) tcoef))) ->
+         Forall
+           (fun br : list F * list F =>
+            NoDup (snd br) /\
+            incl (snd br) (Stark.domain O0 (gtrace n (fun m0 : nat => emb (rouB m0))) n) /\
+            (forall r0 : F, In r0 (snd br) -> peval O0 (fst br) r0 = fzero O0) /\
+            length (fst br) - length (snd br) <= m) (bs_of (map (embG emb) groupsB) [] false Bm Rm Ba Ra) ->
+         exists (Q evals : list F) (cols : list (list F)),
+           length Q <= m /\
+           evaluate_mixed OB O0 mul_base n ceb ldeb offsetB rouB num_main tmainB ppolysB exemptions tcoef groupsB
+             lde_mainB = Some evals /\
+           composition_poly_new n (interp_fft O0 two_adicity itw (emb offsetB)) evals num_cols = Some cols /\
+           (forall z : F, recombine O0 n (cp_evaluate_at O0 cols z) z = peval O0 Q z) /\
+           (forall z : F,
+            ~ In z (Stark.domain O0 (gtrace n (fun m0 : nat => emb (rouB m0))) n) ->
+            recombine O0 n (cp_evaluate_at O0 cols z) z =
+            comp_def O0 n (fun m0 : nat => emb (rouB m0)) tmain taux (map (map emb) ppolysB) exemptions tcoef
+              (map (embG emb) groupsB) [] rands false (map (map emb) tpolysB) apolys z).
+Proof. exact @composition_is_definition_ext_closed. Qed.
+Print Assumptions C17_composition_is_definition_ext_closed.
 
 (* ---- non-vacuity: each theorem above instantiated in the 64-bit field with ALL hypotheses discharged
         (Proofs/CompositionExamples.v).  Instance A: trace length 2, ce blowup 2, a periodic column, an auxiliary column,
